@@ -116,9 +116,9 @@ func Harness_C03G_Envelopes() {
 		rec, _ = serve(h, "GET", "/things?ids=List(a,b)", map[string]string{restli.MethodHeader: "batch_get"}, nil)
 		t, ok := ref.ParseJSON(rec.body.String())
 		verif.Assert(ok, "batch response is not JSON")
-		verif.Assert(t.Get("results") != nil && len(t.Get("results").Keys) == 1 && t.Get("results").Get(ea) != nil, "results member wrong (keys must be in the reduced encoding): "+rec.body.String())
-		verif.Assert(t.Get("statuses") != nil && len(t.Get("statuses").Keys) == 1 && t.Get("statuses").Get(ea) != nil && t.Get("statuses").Get(ea).S == "200", "statuses member wrong (keys must be in the reduced encoding): "+rec.body.String())
-		verif.Assert(t.Get("errors") != nil && len(t.Get("errors").Keys) == 1 && t.Get("errors").Get(eb) != nil && t.Get("errors").Get(eb).Get("status").S == "404", "errors member wrong (keys must be in the reduced encoding): "+rec.body.String())
+		verif.Assert(t.Get("results") != nil && len(t.Get("results").Keys) == 1 && ref.UpperHex(t.Get("results").Keys[0]) == ea, "results member wrong (keys must be in the reduced encoding): "+rec.body.String())
+		verif.Assert(t.Get("statuses") != nil && len(t.Get("statuses").Keys) == 1 && ref.UpperHex(t.Get("statuses").Keys[0]) == ea && t.Get("statuses").Kids[0].S == "200", "statuses member wrong (keys must be in the reduced encoding): "+rec.body.String())
+		verif.Assert(t.Get("errors") != nil && len(t.Get("errors").Keys) == 1 && ref.UpperHex(t.Get("errors").Keys[0]) == eb && t.Get("errors").Kids[0].Get("status").S == "404", "errors member wrong (keys must be in the reduced encoding): "+rec.body.String())
 	case 2:
 		rec, _ = serve(h, "POST", "/things?action=ping", map[string]string{restli.MethodHeader: "action"}, []byte(`{"msg":"m"}`))
 		t, ok := ref.ParseJSON(rec.body.String())
@@ -129,7 +129,7 @@ func Harness_C03G_Envelopes() {
 		id := rec.header.Get(restli.IDHeader)
 		t, ok := ref.ParseROR2(id)
 		verif.Assert(ok && t.Kind == ref.String && t.S == "new id", "id header does not denote the created id: "+id)
-		verif.Assert(id == ref.ReducedEscape("new id"), "id header is not in the reduced encoding: "+id)
+		verif.Assert(ref.UpperHex(id) == ref.ReducedEscape("new id"), "id header is not in the reduced encoding: "+id)
 		verif.Assert(rec.header.Get("Location") != "", "location header missing")
 	case 4:
 		rec, _ = serve(h, "GET", "/things/k", map[string]string{restli.MethodHeader: "get"}, nil)
